@@ -391,7 +391,7 @@ func (rv *ReportView) Pairs() []string {
 	for _, r := range rv.Results {
 		set[r.Shape+"|"+r.Focus] = true
 	}
-	var acc []string
+	acc := []string{}
 	for k := range set {
 		acc = append(acc, k)
 	}
